@@ -36,6 +36,10 @@ checks = {
    text="Seeded multi-version store: a pool of live fp.Map[int,int]/fp.Set[int] versions from every constructor (immutable.Map/Set, MapBuilder/SetBuilder, seq/iterator/list.ToMap/ToSet, zero values), each paired with a Go-map reference, under one adversarial but lawful hasher per run (identity, hash.Number, k mod 4, constant, k<<27, collide-on-subset, two-level); 1-3 simulated clients apply Updated/Removed/UpdatedWith/Concat/Incl/Excl/Diff/Intersect/SubsetOf in grow/shrink phases over up to 72 keys, every result joining the pool. After every event the new version's trie passes the structural walker (popcount=len(nodes), hash-array count, collision >=2 same-hash non-Eqv entries, leaves under their own hash path, size=reachable entries) and Get/Contains over the whole key universe, Size, IsEmpty, Iterator/Keys/Values/Foreach equal the reference; source versions and a stride of live versions are re-checked, all of them at the end. Reach probes: every node kind, array->branch, bitmap<->hash-array, collision created/reduced, depth>=3. Sampling of histories, not proof.",
    note="Trusted: the Go-map reference in the harness; hashers are lawful by construction. There is no intra-operation nondeterminism in persistent structures, so client interleaving is at operation granularity (stated in the evidence). Keys are ints only.",
    technique="deterministic simulation (history leg): seeded multi-client operation histories over a multi-version store, adversarial-hasher fault, reference model + structural invariants after every event"),
+ "C04": dict(cat="exploration", design="DESIGN.md §4 C04",
+   text="Seeded branching histories over a pool of live values: Seq/[]int inputs carved out of harness-owned arenas (spare capacity, overlapping windows), strict/lazy/slice-backed Lists, immutable Map/Set versions under adversarial hashers, Go maps handed to the library, Option/Try/tuples, and builders kept after Build. 1-3 simulated clients apply 60 operation kinds of the non-mutable API to randomly chosen live values (old versions included); results join the pool. When a value enters the pool two snapshots are taken - contents through the public API and raw memory (whole arenas, backing arrays up to cap, Go maps, structural fingerprint of each retained trie) - and both are compared after every later event, the first difference being attributed to the event that caused it. Sampling of histories and layouts, not proof.",
+   note="Views (Take/Drop/Tail/Init) may share storage, only writes are violations. A builder that refuses (panics) when used after Build is accepted. No intra-operation interleaving exists; client interleaving is at operation granularity. Element type is int; the mutable package is excluded as the property says.",
+   technique="deterministic simulation (history leg): seeded multi-client branching histories, aliasing-layout and builder-reuse faults, API-content and raw-memory snapshots re-compared after every event"),
 }
 
 na = {
